@@ -342,6 +342,13 @@ fn gen_bop(rng: &mut Rng, r: &RefB, f32ok: bool, dist: &mut Dist) -> BOp {
             _ => if rng.chance(1, 2) { BOp::Swap(h, bad_off(rng, dist, 1), 0) } else { BOp::Swap(h, 0, bad_off(rng, dist, 1)) },
         };
     }
+    if rng.chance(1, 6) {
+        // float accessors at bad offsets
+        let fw: u8 = if f32ok && rng.chance(1, 2) { 4 } else { 8 };
+        dist.hit("malformed:float-accessor");
+        return if rng.chance(1, 2) { BOp::Read { w: fw, kind: 2, be, h, off: bad_off(rng, dist, fw as i64) } }
+               else { BOp::WriteF { w: fw, be, h, off: bad_off(rng, dist, fw as i64), lit: *rng.pick(&FLOATS) } };
+    }
     match k {
         5 | 6 => BOp::Read { w, kind: sg as u8, be, h, off: bad_off(rng, dist, w as i64) },
         7 | 8 => BOp::Write { w, sg, be, h, off: bad_off(rng, dist, w as i64), v: val_in(rng, w, sg) },
@@ -360,6 +367,58 @@ fn gen_bop(rng: &mut Rng, r: &RefB, f32ok: bool, dist: &mut Dist) -> BOp {
     }
 }
 
+/// Boundary scenario at MAX_ALLOC (the value the translator read from the source is passed in): the
+/// largest buffer must be allocatable and addressable up to its last byte, one more byte must not be.
+/// Oracle only (a 256 MiB list is not something to evaluate inside Coq).
+#[cfg(vbxq_aelys_lang_verif)]
+pub fn limits(max_alloc: i64, dist: &mut Dist) {
+    let mut vm = vmrun::new_vm(64 << 20);
+    let (c, _, d) = vmrun::input(&mut vm, "needs std.bytes\n0", 1);
+    if c != OK_VAL { println!("!HARNESS\tbytes prelude failed: {} {}", c, d); return; }
+    let m = max_alloc;
+    // (source, expected: Some(int) / None = error / Some(i64::MIN) = null)
+    let null = i64::MIN;
+    let steps: Vec<(String, Option<i64>)> = vec![
+        (format!("bytes.alloc({})", m), Some(0)),
+        ("bytes.size(0)".into(), Some(m)),
+        (format!("bytes.write_u8(0, {}, 7)", m - 1), Some(null)),
+        (format!("bytes.read_u8(0, {})", m - 1), Some(7)),
+        (format!("bytes.read_u8(0, {})", m), None),
+        (format!("bytes.read_u16(0, {})", m - 1), None),
+        (format!("bytes.write_u32(0, {}, 1)", m - 3), None),
+        (format!("bytes.fill(0, {}, 4, 9)", m - 4), Some(null)),
+        (format!("bytes.fill(0, {}, 4, 9)", m - 3), None),
+        (format!("bytes.read_u8(0, {})", m - 1), Some(9)),
+        ("bytes.resize(0, 16)".into(), Some(null)),
+        ("bytes.size(0)".into(), Some(16)),
+        ("bytes.read_u8(0, 16)".into(), None),
+        (format!("bytes.resize(0, {})", m), Some(null)),
+        (format!("bytes.read_u8(0, {})", m - 1), Some(0)),
+        (format!("bytes.resize(0, {})", m + 1), None),
+        ("bytes.size(0)".into(), Some(m)),
+        ("bytes.free(0)".into(), Some(null)),
+        (format!("bytes.alloc({})", m + 1), None),
+        (format!("bytes.alloc({})", m), Some(0)),
+        (format!("bytes.copy(0, 0, 0, {}, 2)", m - 2), Some(null)),
+        (format!("bytes.copy(0, 0, 0, {}, 2)", m - 1), None),
+        ("bytes.free(0)".into(), Some(null)),
+        ("bytes.size(0)".into(), None),
+    ];
+    for (i, (src, want)) in steps.iter().enumerate() {
+        let (c, bits, detail) = vmrun::input(&mut vm, src, 1);
+        let v = Value::from_raw(bits);
+        let got: Option<i64> = if c != OK_VAL { None } else if v.is_null() { Some(null) } else { v.as_int() };
+        if c == E_COMPILE || c == PANIC { println!("!HARNESS\tinput `{}` -> class {}: {}", src, c, detail.replace('\n', " ")); }
+        dist.hit("limits:steps");
+        if got != *want {
+            let what = if want.is_none() { "invalid-access-not-reported" } else if got.is_none() { "valid-access-rejected" } else { "wrong-result" };
+            println!("!ORACLE\tbytes-oracle:limits:{}\t`{}` answered {:?}, expected {:?} (MAX_ALLOC = {}) {}\tstep {} of: {}", what, src, got, want, m, detail.replace('\t', " "), i,
+                     steps[..=i].iter().map(|s| s.0.clone()).collect::<Vec<_>>().join("; "));
+            return;
+        }
+    }
+}
+
 #[cfg(vbxq_aelys_lang_verif)]
 pub fn main(seed: u64, hist: u64, maxlen: u64, replay: Option<String>, dist: &mut Dist) {
     use aelys_runtime::Resource;
@@ -369,7 +428,7 @@ pub fn main(seed: u64, hist: u64, maxlen: u64, replay: Option<String>, dist: &mu
         let len = match rng.below(4) { 0 => 1 + rng.below(8), 1 => 1 + rng.below(40), _ => 1 + rng.below(maxlen) } as usize;
         let len = fixed.as_ref().map(|f| f.len()).unwrap_or(len);
         let opt = rng.below(4) as u32;
-        let f32ok = hidx % 8 == 7;
+        let f32ok = hidx % 4 == 3;
         let mut vm = vmrun::new_vm(64 << 20);
         let (c, _, d) = vmrun::input(&mut vm, "needs std.bytes\n0", opt);
         if c != OK_VAL { println!("!HARNESS\tbytes prelude failed: {} {}", c, d); return; }
@@ -380,8 +439,12 @@ pub fn main(seed: u64, hist: u64, maxlen: u64, replay: Option<String>, dist: &mu
         for i in 0..len {
             let op = match &fixed { Some(f) => f[i].clone(), None => gen_bop(&mut rng, &r, f32ok, dist) };
             let text = src(&op);
+            if flag("--trace") { eprintln!("#STEP\tbytes\t{}\t{}", i, text); }
             let (c, bits, detail) = vmrun::input(&mut vm, &text, opt);
-            if c == E_COMPILE || c == PANIC || (c != OK_VAL && c != E_TYPE) {
+            if c == PANIC {
+                // a panic inside the implementation is a failure of the property's "reported as an error", with this input
+                findings.push((i, format!("bytes-oracle:{}:panic", op_kind(&op)), format!("`{}` panicked: {}", text, detail.replace('\n', " ").replace('\t', " "))));
+            } else if c == E_COMPILE || (c != OK_VAL && c != E_TYPE) {
                 println!("!HARNESS\tinput `{}` (opt {}) -> class {}: {}", text, opt, c, detail.replace('\n', " ").replace('\t', " "));
             }
             let v = Value::from_raw(bits);
@@ -430,6 +493,10 @@ pub fn main(seed: u64, hist: u64, maxlen: u64, replay: Option<String>, dist: &mu
                     break;
                 }
             }
+            let detail_kind = match &op { BOp::Read { w, kind, be, .. } => format!("read_{}{}{}", ["u", "i", "f"][*kind as usize], *w as u32 * 8, if *be { "_be" } else { "" }),
+                BOp::Write { w, sg, be, .. } => format!("write_{}{}{}", if *sg { "i" } else { "u" }, *w as u32 * 8, if *be { "_be" } else { "" }),
+                BOp::WriteF { w, be, .. } => format!("write_f{}{}", *w as u32 * 8, if *be { "_be" } else { "" }), _ => op_kind(&op).to_string() };
+            dist.hit(&format!("outcome:{}:{}", detail_kind, if code == 9 { "err" } else { "ok" }));
             obs.push(code as i128);
             obs.push(val);
             ops.push(op);
